@@ -6,7 +6,7 @@ sys.path.insert(0, "/verif")
 TECH = {
  "C01": "abstract interpretation (BytesAI: linear constraints + Fourier-Motzkin + parity) of the validator, the record loop with the segmenter inlined, the label writer, the segment attribute class (all flag combinations), the output buffer and the byte writer; CFG ordering / who-may-write rules",
  "C02": "abstract interpretation with inductive loop invariants (Houdini over templates) + exact unrolling for witnesses (partition, bracketing bits, padding flag vs pad bytes); value-flow summary of the record loop (nesting and order of the iterables); effect rules",
- "C03": "value-flow normal form (E6: inlined def-use summaries) of the chunk-dtype plan and of the row serialiser (byte-order normalisation, one copying swap per slot, field order from the channel mapping), CFG dominance of the channel-order guard, table cross-check vs RP66, abstract interpretation (UVARI, chunk tiling)",
+ "C03": "value-flow normal form (E6: inlined def-use summaries) of the chunk-dtype plan and of the row serialiser (byte-order normalisation, one copying swap per slot, field order from the channel mapping), CFG dominance of the channel-order guard, table cross-check vs RP66, abstract interpretation (UVARI, chunk tiling); value flow of add_channel (the kept data do not depend on the declared cast)",
  "C04": "abstract interpretation of the component writers over an exhaustive finite space of value shapes; attribute declaration table checks",
  "C05": "table extraction and cross-checking (add_* forwarding, labels, set types vs RP66); value-flow normal form of set_attributes / converters / setters (inlined, helper-insensitive); semantic write-path store inventory with path conditions (defaults only where unset); abstract interpretation of the primitive emitters",
  "C06": "abstract interpretation of every primitive emitter over its whole value domain; struct format table vs RP66 Appendix B; call-site enumeration",
@@ -16,11 +16,11 @@ TECH = {
  "C10": "abstract interpretation of the output buffer, byte writer, chunk validator, record loop (one whole visible record per buffer call) and chunk generator for all sizes (monomials + monotonicity lemmas for the tiling); package-wide, key-sensitive forwarding closure of the chunk-size parameters over value-flow summaries",
  "C11": "value-flow normal form: sibling agreement of load_chunk implementations on window-aware row addressing (helper expanded), dispatch totality, mapping-driven field filling, merge of inline and write-time data; chunk-window arithmetic by abstract interpretation",
  "C12": "guard inventory over inlined value-flow summaries (each rejection: a raise under exactly its condition, on the write path before generation), closed table of non-re-raising exception handlers, shared emitter / byte-order obligations",
- "C13": "semantic write-path store inventory (object.field written, value and path condition rewritten into the frame's terms through helpers) for INDEX-MIN/MAX/SPACING/DIRECTION; inlined summary of the spacing helper (widening before diff, relative tolerance, direction sense); provenance fixpoint for persistence",
+ "C13": "semantic write-path store inventory (object.field written, value and path condition rewritten into the frame's terms through helpers) for INDEX-MIN/MAX/SPACING/DIRECTION; inlined summary of the spacing helper (widening before diff, relative tolerance; direction decided under each sign pattern of the index differences - a sign-set abstraction over the summary); provenance fixpoint for persistence",
  "C14": "closed state inventory: memo/cache detection, package-wide provenance fixpoint (which stored values derive from write() arguments / from nondeterminism sources) over value-flow summaries, module/class-level containers, mode-flag CFG discipline",
  "C15": "raise reachability by abstract interpretation for all body lengths and all accepted record lengths, with concrete (S, vrl) witnesses; validator set comparison",
  "C16": "abstract interpretation of the no-format body builder for three payload kinds; value-flow summaries + CFG dominance for the record list (appended exactly once to one plain list, yielded as it is); padding obligations of the segment builder",
- "C17": "CFG path rules (save / set / restore on every normal and exceptional exit) for every writer of the mode flag; flag readers classified on value-flow summaries with three-valued evaluation of path conditions; inlined frame set-up (restriction not bypassable); regex AST of the name pattern",
+ "C17": "CFG path rules (save / set / restore on every normal and exceptional exit) for every writer of the mode flag; flag readers classified on value-flow summaries with three-valued evaluation of path conditions; inlined frame set-up (restriction not bypassable); regex AST of the name pattern; return alternatives of the enum converter (given text accepted by member value only)",
  "C18": "abstract interpretation of the record generator; who-may-use rules for the shared registry; inlined value-flow summaries of the registry entry points (ownership guard before registration, owner recorded) and of the 21 add_* sites",
  "C19": "interprocedural may-alias taint analysis of caller-owned data (parameters, returns, generators, instance fields) against an enumerated set of in-place sinks, with an always-on positive control",
  "C20": "CFG ordering rules (publish last) on 22 constructors and 21 add_* methods; effect reachability before publication; setter atomicity; semantic write-path store inventory with provenance; order of refusals and derived stores on inlined value-flow summaries",
@@ -54,7 +54,7 @@ man = {
  "engines": [{"name": "sa", "path": "/verif/sa", "serves_properties": [p["id"] for p in props],
               "kind_free_text": "repository-specific static analysis on Python ast: program index + call graph (E1), statement CFG with exceptional edges (E2), relational abstract interpreter for byte-length arithmetic with its own Fourier-Motzkin decision procedure (E3), table extraction vs RP66 reference tables (E4), effect / memo / taint analyses (E5), value-flow normal form: per-function def-use summaries with inlining, generator fusion, field resolution through constructors and a provenance fixpoint (E6); before all of them, alpha-normalisation of consistently renamed private names and desugaring of match statements on the parsed trees (E0). The content-level properties also include the shared transport-layer rule group (segmentation, output buffer, byte writer). Nothing in /repo is imported or executed."}],
  "checks": checks,
- "notes": "Exit 0 = all obligations discharged (listed known findings are printed as KNOWN-FINDING); exit 1 + VIOLATION line = a rule instance refuted on a named construct; exit 2 + ANALYSIS-ERROR = analysis could not be carried out. thorough = quick + two-way self-validation of the rules on scratch copies: seeded breaks (hand-written variants, the 140 sub-agent changes under /verif/seeded, the reversals of the repaired defects) must fire, behaviour-preserving twins (hand-written and the five sub-agent refactoring corpora under /verif/seeded/_refactors*) must stay silent beyond what the tree under test itself raises; the normal form is self-checked (sa/terms_check.py). Known findings: /verif/known_findings.json.",
+ "notes": "Exit 0 = all obligations discharged (listed known findings are printed as KNOWN-FINDING); exit 1 + VIOLATION line = a rule instance refuted on a named construct; exit 2 + ANALYSIS-ERROR = analysis could not be carried out. thorough = quick + two-way self-validation of the rules on scratch copies: seeded breaks (hand-written variants, the 156 sub-agent changes under /verif/seeded, the reversals of the repaired defects) must fire, behaviour-preserving twins (hand-written and the five sub-agent refactoring corpora under /verif/seeded/_refactors*) must stay silent beyond what the tree under test itself raises; the normal form is self-checked (sa/terms_check.py). Known findings: /verif/known_findings.json.",
  "not_applicable": [],
 }
 json.dump(man, open("/verif/MANIFEST.json", "w"), indent=1)
